@@ -113,6 +113,8 @@ class Emitter:
             return f"[{self.e(x[1])} for _c in ENV.iter({s})]"
         if op == "obj":
             return f"ENV.obj({self.site()})"
+        if op == "next":
+            return f"next({x[1]}, -1)"
         if op == "yield":
             inner = "None" if x[1] is None else self.e(x[1])
             if self.traced:
@@ -332,6 +334,8 @@ class Emitter:
                 self.w(y)
         elif op == "yieldfrom":
             self.w(f"yield from {self.e(s[1])}")
+        elif op == "close":
+            self.w(f"{s[1]}.close()")
         elif op == "break":
             self.w("break")
         elif op == "cont":
